@@ -24,7 +24,11 @@ import numpy as np
 from hypothesis import strategies as st
 
 from . import gen, ref
-from .harness import Outcome, guarded
+from .harness import CaseTimeout, Outcome, case_alarm, guarded
+
+# wall-clock allowance of one transformation (only ever makes the machine skip
+# an op, e.g. when a seeded defect turns it into an endless loop)
+OP_SECONDS = 30
 
 MINIMIZE = ["flops", "size", "write", "combo", "limit"]
 
@@ -531,7 +535,13 @@ class Machine:
             backup = self.tree.copy()
             backup_proj = dict(self.proj)
             self.prev_tree = self.tree
-            status = self.apply(op, what)
+            try:
+                with case_alarm(OP_SECONDS):
+                    status = self.apply(op, what)
+            except CaseTimeout:
+                # inconclusive: the op is skipped and rolled back, never judged
+                status = "raised"
+                self.count(f"raised:{name}:timeout")
             log.append((name, status))
             self.count(f"op:{name}:{status}")
             if self.viol:
